@@ -38,10 +38,11 @@ def parse_probe(ans: str):
     return out
 
 
-def gen_script(rng, ncols, nsess, bufs):
+def gen_script(rng, ncols, nsess, bufs, allow_bad=False):
     """a list of sessions: (col, kind, fault, puts, cut)"""
     script = []
     used = 0
+    retry = {}
     for _ in range(nsess):
         c = rng.below(ncols)
         kind = rng.weighted([("writing", 3), ("reading", 1)])
@@ -56,6 +57,17 @@ def gen_script(rng, ncols, nsess, bufs):
                 used += 1
                 puts.append((f"k{used}", bytes([rng.below(256)]) * rng.range(0, 4)))
         cut = rng.range(0, max(len(puts), 1))
+        if kind == "writing" and fault == "none" and retry.get(c):
+            # the key whose write failed in an earlier session of this collection is put again: it must be accepted
+            puts = [(retry.pop(c), b"again")] + puts
+        if kind == "writing" and fault == "none" and allow_bad and rng.chance(1, 5):
+            # "raised by the value encoder": one value is a str -> the backend write raises part-way through the record
+            used += 1
+            bad = (f"k{used}", "not-bytes")
+            pos = rng.range(0, len(puts))
+            puts = puts[:pos] + [bad] + puts[pos:]
+            fault = "badValue"
+            retry[c] = bad[0]
         script.append((c, kind, fault, puts, cut))
     return script
 
@@ -116,8 +128,13 @@ def run_script(ctx, probe, path: Path, bufs, script, tag, alias: Path = None, pr
             elif kind == "reading" and not ar.startswith("ok"):
                 ctx.violation("C04:readers-do-not-share", f"a second process could not read while a reading session was open ({ar[:20]})",
                               {"bufs": bufs, "script": tag, "at": si})
-        step = {"session": si, "col": c, "kind": kind, "fault": fault, "puts": [[k, hx(v)] for k, v in puts], "cut": cut}
+        step = {"session": si, "col": c, "kind": kind, "fault": fault,
+                "puts": [[k, hx(v) if isinstance(v, bytes) else "str:" + v] for k, v in puts], "cut": cut}
         ctx.count(f"session:{kind}:{fault}")
+        if fault == "none" and out["exc"] is not None:
+            ctx.violation("C04:fault-free-session-raised",
+                          f"session {si} ({kind}, no fault injected) ended with {out['exc']} after earlier sessions {[s[2] for s in script[:si]]}",
+                          {"bufs": bufs, "script": tag, "at": step})
         # ---- reference semantics
         if fault != "atBegin":
             if out["listed"] is not None and sorted(expected.keys()) != out["listed"] and kind == "reading":
@@ -133,7 +150,18 @@ def run_script(ctx, probe, path: Path, bufs, script, tag, alias: Path = None, pr
                                       {"bufs": bufs, "script": tag, "at": step})
                 ps = [] if fault == "atUpdate" else (puts[:cut] if fault == "atBody" else puts)
                 queue = pending[c] + ps
-                if fault == "atFlush" and queue:
+                if fault == "badValue":
+                    # everything queued before the bad pair is written (flushes write in order), the bad pair is not,
+                    # what follows it is either never put (small buffer: the body is aborted) or stays queued
+                    nb = next(j for j, (k, v) in enumerate(queue) if isinstance(v, str))
+                    for k, v in queue[:nb]:
+                        expected[k] = v
+                    pending[c] = []
+                    expected_after_min = expected_after_max = dict(expected)
+                    queue = []
+                if fault == "badValue":
+                    pass
+                elif fault == "atFlush" and queue:
                     # the first write of the exit flush raises: that pair is popped and lost, the rest stays queued in the
                     # collection object (exact bookkeeping is the model's job; the oracle demands only that nothing already
                     # written disappears and nothing outside the queue appears)
@@ -176,7 +204,7 @@ def run_script(ctx, probe, path: Path, bufs, script, tag, alias: Path = None, pr
                               {"bufs": bufs, "script": tag, "at": step})
             # what a failed flush really left behind becomes the reference from here on
             expected = dict(lib) if fault == "atFlush" else expected
-            if fault == "atFlush":
+            if fault in ("atFlush", "badValue"):
                 pending[c] = [(k, v) for k, v in col._backend._write_queue]
         if fault == "atBegin":
             continue
@@ -434,17 +462,41 @@ def run(ctx):
                 ctx.check_deadline()
         ctx.count("exhaustive_session_orders", nex)
         ctx.extra_cov["exhaustive_session_depth"] = depth
+        # ---- directed scripts: a handle that announced n keys whose write failed, then exactly n foreign records,
+        # then the same handle again (its cached key set must be refreshed from the file, not trusted by count)
+        directed = []
+        for nbad in (1, 2, 3):
+            for bufA in (1_000_000, -1):
+                sc = []
+                for j in range(nbad):
+                    sc.append((0, "writing", "badValue", [(f"g{j}", b"good"), (f"bad{j}", "not-bytes")], 1))
+                sc.append((1, "writing", "none", [(f"b{j}", b"x") for j in range(nbad)], nbad))
+                sc.append((0, "reading", "none", [], 0))
+                sc.append((0, "writing", "none", [("bad0", b"again"), ("late", b"")], 2))
+                sc.append((1, "reading", "none", [], 0))
+                directed.append(([bufA, 64], sc))
+        for dn, (bufs, script) in enumerate(directed):
+            tag = [[c, k, f, [[a, hx(b) if isinstance(b, bytes) else 'str:' + b] for a, b in p], cut] for c, k, f, p, cut in script]
+            run_script(ctx, probe, work / "real" / f"directed{dn}.ukv", bufs, script, tag,
+                       alias=work / "alias" / ".." / "alias" / f"directed{dn}.ukv")
+            ctx.case(json.dumps([bufs, tag]), True)
+            ctx.count("directed_scripts")
         nscripts = 40 if ctx.quick() else 600
         for n in range(nscripts):
             ncols = ctx.rng.range(1, 3)
             bufs = [ctx.rng.choice([-1, 0, 64, 1_000_000]) for _ in range(ncols)]
-            script = gen_script(ctx.rng, ncols, ctx.rng.range(3, 8), bufs)
-            tag = [[c, k, f, [[a, hx(b)] for a, b in p], cut] for c, k, f, p, cut in script]
+            with_bad = (n % 3 == 2)      # every third script injects value-encoder faults (checked by the oracle only)
+            script = gen_script(ctx.rng, ncols, ctx.rng.range(3, 8), bufs, allow_bad=with_bad)
+            with_bad = any(s_[2] == "badValue" for s_ in script)
+            tag = [[c, k, f, [[a, hx(b) if isinstance(b, bytes) else 'str:' + b] for a, b in p], cut] for c, k, f, p, cut in script]
             inside = {ctx.rng.below(len(script))} if n < (12 if ctx.quick() else 80) else ()
             toks = run_script(ctx, probe, work / "real" / f"script{n}.ukv", bufs, script, tag,
                               alias=work / "alias" / ".." / "alias" / f"script{n}.ukv", probe_inside=inside)
-            lines.append(model_lines(bufs, script))
-            impls.append((toks, bufs, tag))
+            if not with_bad:
+                lines.append(model_lines(bufs, script))
+                impls.append((toks, bufs, tag))
+            else:
+                ctx.count("scripts_with_value_encoder_fault")
             nt = any(s[2] != "none" for s in script[:-1])
             ctx.case(json.dumps([bufs, tag]), nt)
             if n < 2:
